@@ -590,7 +590,8 @@ func runEngineCheckExtra(t *testing.T, prop string, cfgs []sched.Config, names f
 	var res seqmc.Result
 	res.Property = prop
 	light := os.Getenv("MC_LIGHT") == "1"
-	for _, c := range cfgs {
+	for i, c := range cfgs {
+		c.Deadline = sched.FairDeadline(c.Deadline, i, len(cfgs))
 		if light && len(c.Bounds) > 3 {
 			// build-variant units of the quick tier: the first three bounds of every scenario
 			c.Bounds = c.Bounds[:3]
